@@ -691,3 +691,24 @@ impl<T, E> UnwrapOrDiverge<T> for Result<T, E> {
 }
 
 pub fn max_u64(a: u64, b: u64) -> (r: u64) ensures r == (if a >= b { a } else { b }), { if a >= b { a } else { b } }
+
+// ---- HTTP id assignment (C18) ----
+// R8 for-each schema: `v.iter_mut().for_each(|x| body)` is `for x in vec_iter_mut(&mut v) { body }`: one exclusive reference per element,
+// in order; the vector afterwards has the same length and, at each index, the final value of that index's borrow (std semantics of
+// `slice::iter_mut` + `Iterator::for_each`)
+#[verifier::external_body]
+pub fn vec_iter_mut<T>(v: &mut Vec<T>) -> (r: Vec<&mut T>)
+    ensures
+        r@.len() == old(v)@.len(),
+        final(v)@.len() == old(v)@.len(),
+        forall|i: int| 0 <= i < r@.len() ==> *#[trigger] r@[i] == old(v)@[i],
+        forall|i: int| 0 <= i < r@.len() ==> *final(#[trigger] r@[i]) == final(v)@[i],
+        // the same two facts, stated so that they are found from the vector's side (trigger terms)
+        forall|i: int| 0 <= i < r@.len() ==> #[trigger] old(v)@[i] == *r@[i],
+        forall|i: int| 0 <= i < r@.len() ==> #[trigger] final(v)@[i] == *final(r@[i]),
+{ unimplemented!() }
+pub mod random_id {
+    // server/src/streaming/utils/random_id.rs (uuid crate): a fresh id; nothing is assumed about its value
+    #[verifier::external_body]
+    pub fn get_uuid() -> (r: u128) { unimplemented!() }
+}
